@@ -59,6 +59,10 @@ func (vc *ConnCursor) Rowid() (int64, error) {
 }
 
 func (vc *ConnCursor) Column(context *sqlite.VirtualTableContext, i int) error {
+	if context.NoChange() {
+		// UPDATE does not assign this attribute: let Update() see that
+		return nil
+	}
 	switch i {
 	case 0:
 		if vc.vm.sc.deadline.IsZero() {
@@ -108,16 +112,19 @@ func (c *ConnModule) Update(value sqlite.Value, values ...sqlite.Value) error {
 
 	if !writeTime.NoChange() {
 		if writeTime.IsNil() || writeTime.Text() == "" {
-			c.sc.writeTime = time.Time{}
+			// a transaction that runs on its start time keeps it
+			if !c.sc.txFixedWriteTime {
+				c.sc.writeTime = time.Time{}
+			}
 		} else {
 			c.sc.writeTime, err = time.Parse(s3db.SQLiteTimeFormat, writeTime.Text())
 			if err != nil {
 				return fmt.Errorf("write_time: must be like %s", s3db.SQLiteTimeFormat)
 			}
+			c.sc.txFixedWriteTime = false
 		}
 	}
 
-	c.sc.txFixedWriteTime = false
 	c.sc.ResetContext()
 
 	return nil
